@@ -28,6 +28,14 @@ def _never_interpret(fn, sig, bound, subconditions, allow_interpretation):
 
 core.consider_shortcircuit = _never_interpret
 
+# CrossHair bypasses functools.lru_cache/cache wrappers while tracing (every call runs the wrapped body).  Memoisation is real
+# behaviour of the code under analysis - a stale memo is a bug the checks must be able to see - so that patch is removed here;
+# vf.env.reset_process_state() clears dvc-data's module-level memo tables at the start of every path instead.
+import crosshair.core_and_libs  # noqa: E402,F401  (runs the library registrations)
+from functools import _lru_cache_wrapper  # noqa: E402
+
+core._PATCH_REGISTRATIONS.pop(_lru_cache_wrapper.__call__, None)
+
 from crosshair.main import main  # noqa: E402
 
 sys.argv[0] = "crosshair"
